@@ -98,6 +98,21 @@ let do_step (o : op) : int =
 let setc k c = cs := List.mapi (fun i x -> if i = k then c else x) !cs
 let nk k = nat_of_int k
 
+(* scripted ticket callback, as in h_cache.c *)
+let cb_script = ref "" and cb_pos = ref 0 and cb_calls = ref 0 and cb_lastfound = ref (-1)
+let cb_k = ref 0x11 and cb_h = ref 0x22 and cb_kl = ref 32 and cb_wn = ref 0xee
+let cb_fun () : cbfun option =
+  if !cb_script = "" then None else
+  Some (fun name found ->
+    let v = !cb_script.[!cb_pos] in
+    if !cb_pos + 1 < String.length !cb_script then incr cb_pos;
+    incr cb_calls; cb_lastfound := (if found then 1 else 0);
+    match v with
+    | 'r' -> CbReject
+    | 'l' when not found -> CbLoad (name, rep 32 !cb_k, z_of_int !cb_kl, rep 32 !cb_h, z_of_int 32)
+    | 'w' -> CbLoad (rep 16 !cb_wn, rep 32 !cb_k, z_of_int !cb_kl, rep 32 !cb_h, z_of_int 32)
+    | _ -> CbAccept)
+
 let do_op (a : string list) : string =
   let op = List.hd a in
   let x = match a with _ :: s :: _ -> conn_ix s | _ -> 0 in
@@ -157,10 +172,19 @@ let do_op (a : string list) : string =
       let (rc, t) = (match ticket_create toy_crypt toy_mac (getc x) iv !st with Some t -> (0, t) | None -> (-100, [])) in
       tbank.(j) <- drop 6 t;
       Printf.sprintf "mkt=%d:%s%s%s%s" rc (hexn t) (dump_conn (Char.chr (65 + x)) (getc x)) (dump_table !st) (dump_keys !st)
+  | "cb", _ :: sc :: rest ->
+      cb_pos := 0; cb_calls := 0; cb_lastfound := -1;
+      if sc = "" || sc.[0] = '-' then (cb_script := ""; "cb=0")
+      else begin
+        cb_script := (if String.length sc > 31 then String.sub sc 0 31 else sc);
+        let hx k d = match kv rest k with Some s -> (try int_of_string ("0x" ^ s) land 0xff with _ -> d) | None -> d in
+        cb_k := hx "k" 0x11; cb_h := hx "h" 0x22; cb_wn := hx "wn" 0xee;
+        cb_kl := (match kv rest "kl" with Some s -> atoi s | None -> 32); "cb=1" end
   | "unl", [_; _; spec] ->
       let t = parse_tspec spec in
-      let (rc, c') = ticket_ext toy_crypt toy_mac avail (getc x) t !st in
-      setc x c'; full (int_of_z rc) ^ dump_keys !st
+      let ((rc, c'), st') = ticket_ext_cb toy_crypt toy_mac avail (cb_fun ()) (getc x) t !st in
+      st := st'; setc x c';
+      full (int_of_z rc) ^ dump_keys !st ^ (if !cb_script = "" then "" else Printf.sprintf " C%d:%d" !cb_calls !cb_lastfound)
   | _ -> "?" ^ op
 
 let rec split_ops (toks : string list) (cur : string list) (acc : string list list) =
@@ -173,7 +197,7 @@ let () = iter_lines (fun l ->
   match split_ws l with
   | "c" :: toks ->
       cs := List.init 6 (fun _ -> conn0); st := init_state (z_of_int 1000000);
-      Array.fill bank 0 16 ([], 0); Array.fill tbank 0 16 [];
+      Array.fill bank 0 16 ([], 0); Array.fill tbank 0 16 []; cb_script := "";
       let ops = split_ops toks [] [] in
       (* the harness prints " | " between ops, including after empty ones *)
       String.concat " | " (List.map (fun o -> if o = [] then "" else do_op o) ops)
